@@ -69,7 +69,7 @@ def ps_lattice(rng, tier: str) -> list[bytes]:
     tok = [b"powershell", b"pwsh", b"p^owershell", b"PowerShell.exe", b"^p^o^w^e^r^s^h^e^l^l"]
     full = b"-encodedcommand"
     switches = [full[:n] for n in range(2, len(full) + 1)]
-    args = [b" -c x", b' -Command "y z"', b" x^y", b" a^\r\nb", b"", b" -nop -w hidden -c z"]
+    args = [b" -c x", b' -Command "y z"', b" x^y", b" a^\r\nb", b"", b" -nop -w hidden -c z", b" a^\x00b c", b" a^\r\n\x00b", b" -c 'x' y"]
     for sw in (switches if tier == "thorough" else switches[::3] + [b"-e", b"-ec", full]):
         for style in (b" " + sw, b" /" + sw[1:], b"/" + sw[1:]):
             for q in (b"", b'"', b"'"):
@@ -85,11 +85,13 @@ def ps_lattice(rng, tier: str) -> list[bytes]:
     args += [b" -e //5lAGMAaABvAA==", b" -e /v8AZQBjAGgAbwA=", b" -enc //5lAGMAaABvACAAYgA=", b" -e //4=",      # byte-order marks (FF FE / FE FF) before the text
              b" -e ^\r\n" + B64, b"/e^\r\n" + B64, b" -e QUJD", b" -e QUJ", b" -e " + B64[:-2], b" -e //8AQQA=", b" -e ANgA3A==",
              b" -e QQBCAEMA", b" -e 4pyTAA=="]
-    post = [b"", b'"', b"'", b"')", b"') do x", b'" & y', b" tail"]
+    post = [b"", b'"', b"'", b"')", b"') do x", b'" & y', b" tail", b" (", b"' (", b"\x00x"]
     out = []
     combos = list(itertools.product(pre, tok, args, post))
     if tier == "quick":
-        combos = rng.sample(combos, 2500)
+        # every context x closer for the commands without encoded argument (where the span rule is the context rule), a sample of the rest
+        plain_args = [a for a in args if not any(c in a for c in (B64[:8], b"QUJ", b"//", b"QQBC", b"4pyT", b"ANgA", b"AGgA"))]
+        combos = rng.sample(combos, 2500) + list(itertools.product(pre, tok[:2], plain_args, post))
     for a, b, c, d in combos:
         out.append(a + b + c + d)
     return out
@@ -128,6 +130,9 @@ def run(prop: str, tier: str) -> int:
     # direction A ---------------------------------------------------------------------------
     for s in strings([b"^", b'"', b"\r", b"\n", b"x"], 6 if tier == "quick" else 7):
         events.append(ev_caret(shell, s))
+    for s in strings([b"^", b'"', b"\r", b"\n", b"x", b"\x00", b" "], 4):        # NUL and blank join the alphabet for short strings
+        if b"\x00" in s or b" " in s:
+            events.append(ev_caret(shell, s))
     ncaret = len(events)
     cmd_alpha = [b"(", b")", b"x", b'"', b" ", b"^", b"\x00", b'cmd"']
     for pre in (b"cmd", b"(cmd ", b'cmd" /c', b"c^md.exe /c "):
